@@ -23,7 +23,15 @@ def discover():
     return res
 
 
-CHECKS = discover()
+def ready():
+    """Only checks listed in harness/READY (one property id per line) are claimed."""
+    try:
+        return {l.strip() for l in open(os.path.join(VERIF, "harness", "READY")) if l.strip() and not l.startswith("#")}
+    except FileNotFoundError:
+        return set()
+
+
+CHECKS = {k: v for k, v in discover().items() if k in ready()}
 
 NOT_YET = {}
 
